@@ -605,3 +605,193 @@ func init() {
 		}
 	}
 }
+
+// ---- structured families for the tabular properties
+
+var pipeOps = []string{
+	"where a > 1", "project a, b", "extend c = a + 1", "summarize n = count() by a", "sort by a", "sort by b asc",
+	"take 2", "top 2 by b", "count", "as X", "render table",
+}
+
+var pipeArgs = map[string][]string{
+	"where":     {"where a > 1", "filter b == 'x'", "where isnull(a)", "where a in (1, 2) and not(b =~ 'X')", "where true", "where 1"},
+	"project":   {"project a, b", "project b", "project x = a + b, a", "project a = b", "project `q c` = a"},
+	"extend":    {"extend c = a + 1", "extend a * 2", "extend c = 1, d = 'k'", "extend n = strcat(b, 'x')"},
+	"summarize": {"summarize n = count() by a", "summarize by a", "summarize count()", "summarize s = sum(a), m = max(b) by b, k = a % 2", "summarize countif(a > 1) by b", "summarize sum(a), by b"},
+	"sort":      {"sort by a", "order by b asc", "sort by a desc, b asc nulls last", "sort by a nulls first", "sort by a + b desc"},
+	"take":      {"take 2", "limit 1", "take 0", "take 0x3", "take 007"},
+	"top":       {"top 2 by b", "top 1 by a asc", "top 3 by a desc nulls first", "top 0 by b"},
+	"count":     {"count"},
+	"as":        {"as X", "as `my name`", "as a"},
+	"render":    {"render table", "render barchart with (title = 'x')", "render piechart with (kind = stacked, a = 1)"},
+}
+
+var pipeKinds = []string{"where", "project", "extend", "summarize", "sort", "take", "top", "count", "as", "render"}
+
+func init() {
+	families["pipes-exh-2"] = func(r *rng, n int, emit emitFn) { pipesExh(2, emit) }
+	families["pipes-exh-3"] = func(r *rng, n int, emit emitFn) { pipesExh(3, emit) }
+	families["pipes-exh-4"] = func(r *rng, n int, emit emitFn) { pipesExh(4, emit) }
+	families["pipes"] = func(r *rng, n int, emit emitFn) {
+		for i := 0; i < n; i++ {
+			k := 1 + r.intn(8)
+			s := pick(r, []string{"T", "U", "`my table`"})
+			for j := 0; j < k; j++ {
+				s += " | " + pick(r, pipeArgs[pick(r, pipeKinds)])
+			}
+			emit(hx(s))
+		}
+	}
+	families["joins"] = func(r *rng, n int, emit emitFn) {
+		for i := 0; i < n; i++ {
+			emit(hx(genJoin(r, 2)))
+		}
+	}
+	families["lets"] = func(r *rng, n int, emit emitFn) {
+		g := &pgen{r: r, noLayout: true}
+		for i := 0; i < n; i++ {
+			fields := []string{hx(genLets(r, g))}
+			for _, k := range []string{"p1", "p2", "a", "true", "x", "n"} {
+				if r.chance(1, 3) {
+					fields = append(fields, hx(k), hx(pick(r, []string{"{p:String}", "$1", "42", "'lit'", "(1 + 2)", "\"col\"", "NULL"})))
+				}
+			}
+			emit(fields...)
+		}
+	}
+	families["rules"] = func(r *rng, n int, emit emitFn) {
+		g := &pgen{r: r, noLayout: true}
+		for i := 0; i < n; i++ {
+			emit(hx(genRuleCase(r, g)))
+		}
+	}
+}
+
+func pipesExh(depth int, emit emitFn) {
+	var rec func(prefix string, d int)
+	rec = func(prefix string, d int) {
+		emit(hx(prefix))
+		if d == depth {
+			return
+		}
+		for _, op := range pipeOps {
+			rec(prefix+" | "+op, d+1)
+		}
+	}
+	rec("T", 0)
+}
+
+func genPipeline(r *rng, maxOps int) string {
+	k := r.intn(maxOps + 1)
+	var ops []string
+	for j := 0; j < k; j++ {
+		ops = append(ops, pick(r, pipeArgs[pick(r, pipeKinds)]))
+	}
+	return strings.Join(ops, " | ")
+}
+
+func genJoin(r *rng, depth int) string {
+	left := pick(r, []string{"T", "U"})
+	if p := genPipeline(r, 2); p != "" {
+		left += " | " + p
+	}
+	nj := 1 + r.intn(2)
+	for j := 0; j < nj; j++ {
+		kind := pick(r, []string{"", "", "kind=inner ", "kind=leftouter ", "kind=innerunique ", "kind = inner "})
+		right := pick(r, []string{"B", "U", "T"})
+		if depth > 0 && r.chance(1, 4) {
+			right = genJoin(r, depth-1)
+		} else if p := genPipeline(r, 2); p != "" {
+			right += " | " + p
+		}
+		cond := pick(r, []string{"a", "k", "$left.a == $right.a", "$left.a == $right.b", "a, b", "a, $left.b < $right.b", "$left.a == $right.a and $left.b != $right.b",
+			"($left.a) == $right.a", "$left.a == $right.a, $right.b > 1", "`a`", "true", "$left.a + 1 == $right.b", "tolower($left.a) == $right.b", "$left.a =~ $right.a"})
+		left += " | join " + kind + "(" + right + ") on " + cond
+		if p := genPipeline(r, 2); p != "" && r.chance(1, 2) {
+			left += " | " + p
+		}
+	}
+	return left
+}
+
+func genLets(r *rng, g *pgen) string {
+	names := []string{"x", "n", "a", "p1", "true", "lim"}
+	vals := []string{"1", "-5", "'s'", "1 + 2", "x", "n", "p1", "p2", "now()", "strcat('a', x)", "-(-1)", "(2)", "not(true)", "null", "a", "-x", "x * 2", "`q`", "b.c", "1.5", "0x10"}
+	var parts []string
+	nl := r.intn(4)
+	for i := 0; i < nl; i++ {
+		parts = append(parts, "let "+pick(r, names)+" = "+pick(r, vals))
+	}
+	use := pick(r, names)
+	q := pick(r, []string{
+		"T | where a == " + use, "T | where -" + use + " < 1", "T | where " + use + "[1] == 2", "T | where " + use + " in (1, " + use + ")",
+		"T | take " + use, "T | top " + use + " by a", "T | project " + use, "T | project z = " + use + " * 2", "T | extend " + use + " = 1",
+		"T | summarize s = sum(" + use + ") by " + use, "T | sort by " + use, "T | join (U) on " + use, "T | join (U) on $left.a == " + use,
+		"T | join (U | where b == " + use + ") on a", "T | where `" + use + "` == 1", "T | where q." + use + " == 1", "T | where " + use + "(1) == 1",
+		use + " | count", "T | as " + use, "T | where not(" + use + ")", "T | where " + use + " - " + use + " == -" + use,
+	})
+	parts = append(parts, q)
+	if r.chance(1, 4) {
+		parts = append(parts, "let "+pick(r, names)+" = "+pick(r, vals))
+	}
+	return strings.Join(parts, "; ")
+}
+
+// genRuleCase: a grammar program with exactly one documented rule violation planted (or none).
+func genRuleCase(r *rng, g *pgen) string {
+	g.lets = nil
+	e := func() string { return g.expr(1+r.intn(2), false) }
+	wrap := func(bad string) string {
+		// put the offending expression at some depth inside a harmless one
+		switch r.intn(5) {
+		case 0:
+			return bad
+		case 1:
+			return "f(" + bad + ")"
+		case 2:
+			return "(" + bad + ") and a > 1"
+		case 3:
+			return "a in (1, " + bad + ")"
+		default:
+			return "iff(a > 1, " + bad + ", 0)"
+		}
+	}
+	bad := ""
+	switch r.intn(9) {
+	case 0:
+		b := pick(r, builtinFuncs)
+		n := r.intn(5)
+		bad = g.call(b.name, n, 1, false)
+	case 1:
+		bad = pick(r, []string{"$left.a", "$right.b", "$left", "$right.a + 1"})
+	case 2:
+		return "let v = " + pick(r, []string{"a", "`q`", "b.c", "x + 1", "f(a)", "1 + 2", "-3", "now()", "v"}) + "; T | where a == v"
+	case 3:
+		return pick(r, []string{"let x = 1", "let x = 1; let y = 2", "T | count; U | count", "T; U", "let x = 1; T; let y = 2; U", "", ";", "T | count;"})
+	case 4:
+		return "T | join kind=" + pick(r, []string{"inner", "leftouter", "innerunique", "rightouter", "full", "Inner"}) + " (U) on a"
+	case 5:
+		return "T | " + pick(r, []string{"take", "limit", "top"}) + " " + pick(r, []string{"1", "1.5", "'s'", "1e3", "0x10", "n", "1 + 1", "-1"}) + pick(r, []string{"", " by a"})
+	default:
+		bad = e()
+	}
+	pos := r.intn(8)
+	switch pos {
+	case 0:
+		return "T | where " + wrap(bad)
+	case 1:
+		return "T | project z = " + wrap(bad)
+	case 2:
+		return "T | extend " + wrap(bad)
+	case 3:
+		return "T | summarize s = sum(a) by " + wrap(bad)
+	case 4:
+		return "T | sort by " + wrap(bad) + " asc"
+	case 5:
+		return "T | join (U | where " + wrap(bad) + ") on a"
+	case 6:
+		return "T | join (U) on " + wrap(bad)
+	default:
+		return "let q = 1; T | top 2 by " + wrap(bad)
+	}
+}
